@@ -13,6 +13,7 @@ import (
 	"math"
 	"runtime"
 	"strings"
+	"sync"
 	"testing"
 	"time"
 
@@ -43,6 +44,54 @@ type runCase struct {
 	Spins   int    `json:"spins"`
 	Data    h.B    `json:"data"`
 	Hash    uint   `json:"hash,omitempty"` // PoW v1 only: crypto.Hash to install in pow.Hash for this call (0 = default)
+	Ctx     string `json:"ctx,omitempty"`  // kind of context handed to Mine: "" (context.WithCancel), background, foreign, foreign-yield, child, cause
+}
+
+// foreignCtx is a context.Context that is not one of the standard library's types (the context package
+// takes a slower path with an extra goroutine when somebody derives a context from it, and nothing can be
+// learnt from its dynamic type). Done creates its channel lazily like the standard ones; with yield set,
+// Done and Err hand the processor to other goroutines first, which moves the instant at which Mine's
+// goroutines learn about the context relative to the workers.
+type foreignCtx struct {
+	mu    sync.Mutex
+	ch    chan struct{}
+	err   error
+	yield bool
+}
+
+func (c *foreignCtx) Deadline() (time.Time, bool) { return time.Time{}, false }
+func (c *foreignCtx) Value(any) any               { return nil }
+func (c *foreignCtx) Done() <-chan struct{} {
+	if c.yield {
+		runtime.Gosched()
+	}
+	c.mu.Lock()
+	defer c.mu.Unlock()
+	if c.ch == nil {
+		c.ch = make(chan struct{})
+		if c.err != nil {
+			close(c.ch)
+		}
+	}
+	return c.ch
+}
+func (c *foreignCtx) Err() error {
+	if c.yield {
+		runtime.Gosched()
+	}
+	c.mu.Lock()
+	defer c.mu.Unlock()
+	return c.err
+}
+func (c *foreignCtx) cancel() {
+	c.mu.Lock()
+	defer c.mu.Unlock()
+	if c.err == nil {
+		c.err = context.Canceled
+		if c.ch != nil {
+			close(c.ch)
+		}
+	}
 }
 
 func msgOf(data []byte, nonce uint64) []byte {
@@ -57,7 +106,10 @@ func powGoroutines() (int, string) {
 	dump := string(buf[:n])
 	cnt := 0
 	for _, g := range strings.Split(dump, "\n\n") {
-		if strings.Contains(g, "iota-crypto-demo/pkg/pow") {
+		// goroutines with a pkg/pow frame, and the context package's forwarding goroutines: the harness never
+		// derives a context from its own non-standard context type, so such a goroutine can only stem from a
+		// derivation made inside Mine (it lives until that derived context or the caller's context ends)
+		if strings.Contains(g, "iota-crypto-demo/pkg/pow") || strings.Contains(g, "context.(*cancelCtx).propagateCancel") {
 			cnt++
 		}
 	}
@@ -125,6 +177,35 @@ func mineAndJudge(c runCase) (time.Duration, error) {
 		defer func() { pow1.Hash = old }()
 	}
 	ctx, cancel := context.WithCancel(context.Background())
+	switch c.Ctx {
+	case "":
+	case "background": // a context that can never be cancelled: Done() returns a nil channel
+		if c.Cancel != "never" {
+			cancel()
+			return 0, fmt.Errorf("PRECONDITION: background context with cancellation")
+		}
+		ctx = context.Background()
+	case "foreign", "foreign-yield":
+		if c.Cancel == "deadline" {
+			cancel()
+			return 0, fmt.Errorf("PRECONDITION: foreign context with deadline")
+		}
+		fc := &foreignCtx{yield: c.Ctx == "foreign-yield"}
+		ctx, cancel = fc, fc.cancel
+	case "child": // a grandchild carrying values: cancellation reaches it through two parents
+		type key struct{}
+		mid, cancelMid := context.WithCancel(context.WithValue(ctx, key{}, 1))
+		pendingCancels = append(pendingCancels, cancelMid)
+		ctx = context.WithValue(mid, key{}, 2)
+	case "cause": // cancelled with a cause: Err() is still context.Canceled, Cause is the caller's business
+		var cc context.CancelCauseFunc
+		ctx, cc = context.WithCancelCause(ctx)
+		inner := cancel
+		cancel = func() { cc(errors.New("harness: cause")); inner() }
+	default:
+		cancel()
+		return 0, fmt.Errorf("PRECONDITION: context kind %q", c.Ctx)
+	}
 	pendingCancels = append(pendingCancels, cancel)
 	cancelled := make(chan struct{})
 	doCancel := func() { cancel(); close(cancelled) }
@@ -390,6 +471,25 @@ func genRun(t *rapid.T) runCase {
 	if c.Version == 1 && h.Pick(t, "hash", 4, 1) == 1 {
 		c.Hash = uint(h.OneOf(t, "hashid", crypto.SHA1, crypto.MD5, crypto.SHA224, crypto.RIPEMD160, crypto.SHA256, crypto.BLAKE2s_256))
 	}
+	// the kind of context: Mine may only rely on the context.Context interface
+	switch h.Pick(t, "ctxkind", 5, 1, 2, 2, 1, 1) {
+	case 1:
+		if c.Cancel == "never" {
+			c.Ctx = "background"
+		}
+	case 2:
+		if c.Cancel != "deadline" {
+			c.Ctx = "foreign"
+		}
+	case 3:
+		if c.Cancel != "deadline" {
+			c.Ctx = "foreign-yield"
+		}
+	case 4:
+		c.Ctx = "child"
+	case 5:
+		c.Ctx = "cause"
+	}
 	c.DelayUs = rapid.IntRange(0, 5000).Draw(t, "delay")
 	c.Spins = rapid.IntRange(0, 3000).Draw(t, "spins")
 	return c
@@ -400,6 +500,6 @@ func TestRuns(t *testing.T) {
 		Prop: "C13", Name: subName, N: 320,
 		Gen: genRun, Check: checkRun,
 		Require: []string{"v1/every-lane/race", "v2/every-lane/race", "v1/unattainable/delay", "v2/unattainable/delay", "v1/moderate/race", "v2/moderate/race", "v1/easy/before", "v2/easy/never"},
-		Rule:    "configurations {v1, v2} x workers {1,2,3,4,8,16,32,64} x GOMAXPROCS {1,2,4,16} x data {0..40 bytes, one in six 100..5000 bytes} x target {every lane qualifies, easy, moderate (~3^8 hashes), unattainable} x cancellation {never, before the call, after 0..5 ms, racing with the find after 0..3000 scheduler yields, by a context deadline} x (v1) digest function {default, SHA-1, MD5, SHA-224, RIPEMD-160, SHA-256, BLAKE2s}; (err == nil and Score >= target) or (cancellation error and ctx cancelled); returns within 45 s of cancellation (expected ms); no goroutine with a pkg/pow frame alive 5 s after return; binary built with -race (any report is a violation); non-trivial = >= 2 workers and (cancellation used or every-lane target); distinct by configuration",
+		Rule:    "configurations {v1, v2} x workers {1,2,3,4,8,16,32,64} x GOMAXPROCS {1,2,4,16} x data {0..40 bytes, one in six 100..5000 bytes} x target {every lane qualifies, easy, moderate (~3^8 hashes), unattainable} x cancellation {never, before the call, after 0..5 ms, racing with the find after 0..3000 scheduler yields, by a context deadline} x context kind {context.WithCancel, context.Background (nil Done channel), a context type of the harness (lazily created Done channel; optionally yielding the processor inside Done and Err), a value-carrying grandchild, cancel-with-cause} x (v1) digest function {default, SHA-1, MD5, SHA-224, RIPEMD-160, SHA-256, BLAKE2s}; (err == nil and Score >= target) or (cancellation error and ctx cancelled); returns within 45 s of cancellation (expected ms); no goroutine with a pkg/pow frame (nor a context-forwarding goroutine of a context derived inside Mine) alive 5 s after return; binary built with -race (any report is a violation); non-trivial = >= 2 workers and (cancellation used or every-lane target); distinct by configuration",
 	})
 }
